@@ -1,1 +1,4 @@
 // hook file for ntpd/src/daemon/config/mod.rs: declares the per-property harness modules
+#[cfg(any(verif_all, verif_c39))]
+#[path = "/verif/harness/ntpd/c39.rs"]
+mod c39;
